@@ -1,5 +1,5 @@
 import Posmint.Lemmas.ChainTx
-import Posmint.Lemmas.ChainTx
+import Posmint.Lemmas.ChainAccts
 /-!
 # C03 — Only the signer's key authorises a transaction
 
@@ -133,5 +133,32 @@ example (s : State) (h1 : s.keyNodes = [(11, 4)]) (h2 : s.p.txSigLimit = 4) : si
   simp [sigDepthOK, h1, h2]
 example (s : State) (h1 : s.keyNodes = [(11, 4)]) (h2 : s.p.txSigLimit = 5) : sigDepthOK s 11 = true := by
   simp [sigDepthOK, h1, h2]
+
+
+/-! ### the signer's account -/
+
+/-- A transaction whose signer has no account is refused (the fee cannot be taken from an account that does not exist),
+whatever it offers - also a fee of zero, also with the key in the signature, also in simulation. -/
+theorem unknown_signer_rejected (s : State) (t : Tx) (simulate : Bool)
+    (h : acctExists s (t.msg.signer s) = false) : anteOK s t simulate = false := by
+  cases ha : anteOK s t simulate with
+  | false => rfl
+  | true => rw [anteOK_acct ha] at h; cases h
+
+/-- An account, once it exists, exists after every later operation; and the set of accounts that carry a public key is
+fixed at genesis: no operation - no accepted, rejected, checked or simulated transaction, no block boundary - stores,
+replaces or removes a key. -/
+theorem accounts_step (s : State) (op : Op) (r : State × List (Addr × Int) × Bool) (hs : step s op = some r) :
+    (∀ a, acctExists s a = true → acctExists r.1 a = true) ∧ r.1.keyed = s.keyed :=
+  Accts.step_le hs
+
+theorem accounts_run (ops : List Op) (s s' : State) (hr : run s ops = some s') :
+    (∀ a, acctExists s a = true → acctExists s' a = true) ∧ s'.keyed = s.keyed :=
+  Accts.run_le ops s s' hr
+
+/-- a transfer creates the receiving account -/
+theorem send_creates_account (s s1 : State) (src dst : Addr) (amt : Int) (h : send s src dst amt = some s1) :
+    acctExists s1 dst = true :=
+  Accts.send_dst_exists h
 
 end Posmint.Props.C03
